@@ -18,6 +18,7 @@ import z3
 from pyvc.values import *
 from pyvc.engine import Contract, Atomic, Loop
 from pyvc.prop import Property, Structural, Bounded, BoundedResult
+from harness.e2e_converge import bounded_converge
 from . import dictmbx as D
 from . import modseq as M
 from .dictmbx import MBX, Msg, F, Flag
@@ -152,7 +153,16 @@ def _bounded():
                     'copy, move} on a fresh real MailboxData, then every call of append/copy/move/delete/update '
                     'with uids in 101..103, self/other destination, all three flag modes; every invariant and '
                     'guarantee clause of the contract evaluated on the observed pre/post state',
-                    H.bounded_mailbox([append, copy, move, delete, update]), stands_for=None)]
+                    H.bounded_mailbox([append, copy, move, delete, update]), stands_for=None)] + [
+        Bounded(f'protocol-level convergence on the real server ({bk})',
+                'histories of 18 commands (STORE by sequence number and by UID in all three modes, with and without .SILENT; '
+                'EXPUNGE, UID EXPUNGE, APPEND, COPY into the same mailbox, MOVE away, FETCH, NOOP) by 2-3 sessions that have '
+                'INBOX selected: every ordered pair by two sessions with and without a poll in between, pairs by one session, '
+                '600 (quick) / 12000 (thorough) seeded histories of 3-5 steps with polls at random places [maildir: a seeded '
+                'sample of 160 / 2500]; at every poll and at the end every session issues NOOP and its client model (uids and '
+                'flags; its own .SILENT changes applied by the client) must equal what an observer connection sees '
+                '(harness/e2e_converge.py)', bounded_converge('C02', bk), decisive=False)
+        for bk in ('dict', '++', 'fs')]
 
 # ---- dict MailboxData.update_selected: one synchronisation brings the session's view into agreement with the mailbox
 #      (the step from the proved log property to convergence)
@@ -245,14 +255,17 @@ update_selected = Contract(
 
 PROPERTY = Property(
     'C02', 'Cross-session convergence: no lost, phantom or stuck updates',
-    contracts=CONTRACTS + [update_selected, sel_add_updates], registry=REG,
+    contracts=CONTRACTS + [update_selected, sel_add_updates, SELM.silence], registry=REG,
     factories={'FSet': lambda name, attrs, ctx: frozenset()},      # Msg.flags_key (declared by contracts/selected.py) in replays
-    bounded=_bounded(), level='proof', design_ref='6 C02',
+    bounded=_bounded(), level='other', design_ref='6 C02',
     trusted_base=['asyncio cooperative scheduling', 'model of Message.__init__/Message.copy',
                   'FlagOp.apply through its contract (proved under C10)',
                   'update_selected: the agreement of the uids without a newer log record (AgreeUpTo) between two '
                   'synchronisations follows from the guarantee proved for every writer (composition on paper); flags of the '
-                  'cached messages are not part of the agreement proved (uids only); the wait_on branch is not under contract'],
+                  'cached messages are not part of the agreement proved (uids only; for flags: SelectedMailbox.silence is proved '
+                  'to suppress only keys computed from the synchronized flags, the rest is the bounded convergence run); the '
+                  'wait_on branch is not under contract',
+                  'silence: flag sets are opaque (apply / & / get uninterpreted): only the data flow is decided'],
 )
 
 
